@@ -6,15 +6,15 @@ wt=/tmp/wt_confirm_$$
 git -C /repo worktree add --detach "$wt" HEAD -q || exit 3
 trap 'git -C /repo worktree remove --force "$wt"' EXIT
 cd "$wt"
-PYTHONPATH=$wt/src /venv/bin/python "$src/demo.py" > /tmp/cs_clean.out 2>&1; rc_clean=$?
+PYTHONPATH=$wt/src /venv/bin/python "$src/demo.py" > /tmp/cs_clean_$$.out 2>&1; rc_clean=$?
 git apply "$src/patch.diff" || { echo "$name: patch does not apply to HEAD"; exit 2; }
-PYTHONPATH=$wt/src /venv/bin/python "$src/demo.py" > /tmp/cs_patched.out 2>&1; rc_patched=$?
+PYTHONPATH=$wt/src /venv/bin/python "$src/demo.py" > /tmp/cs_patched_$$.out 2>&1; rc_patched=$?
 passed=$(PYTHONPATH=$wt/src timeout 1500 /venv/bin/python -m pytest -q -p no:cacheprovider --timeout=900 tests 2>&1 | tail -1)
 echo "$name: demo clean rc=$rc_clean patched rc=$rc_patched ; suite with patch: $passed"
 if [ $rc_clean -eq 0 ] && [ $rc_patched -ne 0 ] && echo "$passed" | grep -q "729 passed"; then
   mkdir -p /verif/seeded/$name
   cp "$src/patch.diff" "$src/demo.py" /verif/seeded/$name/
-  python3 - "$src/meta.json" "/verif/seeded/$name/meta.json" "$passed" "$(tail -3 /tmp/cs_patched.out | tr '\n' ' ' | cut -c1-300)" <<'PY'
+  python3 - "$src/meta.json" "/verif/seeded/$name/meta.json" "$passed" "$(tail -3 /tmp/cs_patched_$$.out | tr '\n' ' ' | cut -c1-300)" <<'PY'
 import json,sys
 m=json.load(open(sys.argv[1]))
 m['confirmed']={'base':'/repo HEAD at confirmation time','demo_clean_exit':0,'demo_patched_exit':'non-zero','suite_with_patch':sys.argv[3],'demo_output_with_patch':sys.argv[4],
@@ -23,5 +23,5 @@ json.dump(m,open(sys.argv[2],'w'),indent=1)
 PY
   echo "$name: KEPT"
 else
-  echo "$name: REJECTED"; tail -5 /tmp/cs_clean.out
+  echo "$name: REJECTED"; tail -5 /tmp/cs_clean_$$.out
 fi
